@@ -13,6 +13,29 @@ def check(tier):
     cases = [c for c in c02.generate(run, tier, **SIM[tier]) if len(c["mods"]) >= 2]
     run.case_of = lambda ev: cases[ev["case"]] if "case" in ev and ev["case"] < len(cases) else None
     events = c10.drive_and_validate(run, cases, shards=4 if tier == "quick" else 16, mode="c12", prefix="C12:")
+    # A tag written in one module and copied into another (COMPONENTS OF an imported type, instance of an imported parameterized
+    # type) keeps the environment of the module it is written in: the cross-module points of the C03 model, judged by Trace_C03
+    from . import c03
+    xres = core.tlc("mc/MC_C03.tla", "mc/MC_C03.cfg", workers=2, timeout=600)
+    xcases = [c for c in xres.printed("CASE") if c["t"] == "xtag"]
+    if len(xcases) != 108:
+        raise ToolError(f"expected 108 cross-module points, got {len(xcases)}")
+    xc_p, xt_p = run.path("xcases.ndjson"), run.path("xtrace.ndjson")
+    core.write_ndjson(xc_p, xcases)
+    core.vharness(["c03", "--cases", xc_p, "--trace", xt_p], threads=8)
+    xevents = core.read_ndjson(xt_p)
+    c03_known = {k["deviation"] for k in core.load_known() if k["property"] == "C03" and k["status"] == "known"}
+    xcfg = run.path("Trace_C03.cfg")
+    open(xcfg, "w").write("SPECIFICATION Spec\nCONSTANT KnownDevs = {%s}\nPOSTCONDITION Accepted\nCHECK_DEADLOCK FALSE\n" % ", ".join('"%s"' % d for d in sorted(c03_known)))
+    xconsumed, xverdicts = core.validate_trace("trace/Trace_C03.tla", xcfg, xt_p, shards=1)
+    run.cov["traces_validated_against_impl"] += xconsumed
+    run.cov["cross_module_tag_points"] = len(xevents)
+    for (line, kind, what) in xverdicts:
+        ev = xevents[line - 1] if 0 < line <= len(xevents) else {}
+        if kind == "MISMATCH":
+            run.violations.append(("a tag copied into another module does not keep the tagging environment of the module it is written in: " + what, ev))
+        elif kind == "DEVIATION" and what not in c03_known:
+            run.violations.append((f"cross-module tag point explained only by deviation {what}", ev))
     ins = [e for e in events if e["ev"] == "input"]
     run.cov["evaluations"] = len(cases)
     run.cov["module_comparisons"] = len([e for e in events if e["ev"] == "modcmp"])
